@@ -202,9 +202,10 @@ fn unassign_invalid_multi_jobs(
     route_idx: usize,
     synchronized: HashMap<Job, Vec<Arc<Single>>>,
 ) -> Vec<Job> {
+    let goal = new_insertion_ctx.problem.goal.clone();
     let new_route_ctx = new_insertion_ctx.solution.routes.get_mut(route_idx).unwrap();
 
-    synchronized
+    let unassigned = synchronized
         .iter()
         .filter_map(|(job, singles)| match job {
             Job::Multi(multi) => Some((job, multi, singles)),
@@ -217,7 +218,14 @@ fn unassign_invalid_multi_jobs(
             }
 
             unassigned
-        })
+        });
+
+    // NOTE: keep route state in sync with its tour: it is used when jobs of the next routes are inserted
+    if !unassigned.is_empty() {
+        goal.accept_route_state(new_route_ctx);
+    }
+
+    unassigned
 }
 
 fn compare_singles(multi: &Multi, singles: &[Arc<Single>]) -> bool {
